@@ -249,6 +249,17 @@ theorem iterInv_step {s s' : State} (a : Action) (hi : IterInv s) (hs : step s a
         · simp at hs
       all_goals simp at hs
     next => simp at hs
+  | dialInfoFails r0 =>
+    simp only [step, stepDialInfoFails] at hs
+    split at hs
+    next q0 hq0 =>
+      split at hs
+      next hpc =>
+        simp at hs; subst hs
+        refine iter_set hi hq0 rfl rfl ?_
+        intro o c _ ho _; simp [Pc.hostOf] at ho
+      all_goals simp at hs
+    next => simp at hs
   | fallback r0 =>
     simp only [step, stepFallback] at hs
     split at hs
